@@ -16,6 +16,7 @@ import (
 	"os"
 	"sort"
 	"strings"
+	"time"
 
 	"github.com/MixinNetwork/mixin/common"
 	"github.com/MixinNetwork/mixin/crypto"
@@ -27,6 +28,7 @@ type c35World struct {
 	dir   string
 	store *storage.BadgerStore
 	node  *kernel.Node
+	boot  time.Time // when the running node (and its TopoStats ticker) was started
 	nodes []crypto.Hash
 	ids   map[crypto.Hash]int
 	txs   map[int]bool // transactions written since the last wipe
@@ -152,6 +154,7 @@ func execTopology(st *State, line string) Result {
 		case "boot":
 			stopNode()
 			w.node = kernel.VerifTopoNode(w.store)
+			w.boot = time.Now()
 			seq := int(w.node.TopologicalOrder())
 			or.tainted = false
 			for _, e := range or.log {
@@ -182,11 +185,39 @@ func execTopology(st *State, line string) Result {
 			must(w.store.Close())
 			w.store = c23Open(w.dir)
 			return "ok"
-		case "since":
+		case "tick":
+			// wait for a REAL statistics tick of the TopoStats goroutine (60 s after the node
+			// started); it must not move the counter
+			if w.node == nil {
+				return "nonode"
+			}
+			before := w.node.TopologicalOrder()
+			if wait := time.Until(w.boot.Add(60500 * time.Millisecond)); wait > 0 {
+				time.Sleep(wait)
+			}
+			after := w.node.TopologicalOrder()
+			if after != before {
+				fail("counter-moved-without-write", fmt.Sprintf("statistics tick moved the topology counter from %d to %d", before, after))
+			}
+			return fmt.Sprintf("ok %d", after)
+		case "since", "nsince":
 			off, count := atoi(t[1]), atoi(t[2])
-			snaps, err := w.store.ReadSnapshotsSinceTopology(uint64(off), uint64(count))
+			var snaps []*common.SnapshotWithTopologicalOrder
+			var err error
+			if t[0] == "nsince" {
+				// the node-level cursor listing used by p2p sync
+				if w.node == nil {
+					return "nonode"
+				}
+				snaps, err = w.node.ReadSnapshotsSinceTopology(uint64(off), uint64(count))
+				if tip := int(w.node.TopologicalOrder()); off >= tip-1 && off <= tip+1 {
+					res.Tags = append(res.Tags, fmt.Sprintf("nsince:tip%+d", off-tip))
+				}
+			} else {
+				snaps, err = w.store.ReadSnapshotsSinceTopology(uint64(off), uint64(count))
+			}
 			snaps2, txs, err2 := w.store.ReadSnapshotWithTransactionsSinceTopology(uint64(off), uint64(count))
-			if (err == nil) != (err2 == nil) || (err == nil && (showList(snaps) != showList(snaps2) || len(txs) != len(snaps2))) {
+			if t[0] == "since" && ((err == nil) != (err2 == nil) || (err == nil && (showList(snaps) != showList(snaps2) || len(txs) != len(snaps2)))) {
 				fail("list-variants-differ", "ReadSnapshotsSinceTopology and ReadSnapshotWithTransactionsSinceTopology disagree")
 			}
 			if err != nil {
@@ -213,10 +244,10 @@ func execTopology(st *State, line string) Result {
 				fail("list-mismatch", fmt.Sprintf("since %d %d: got %q, acknowledged writes give %q", off, count, got, exp))
 			}
 			if len(snaps) > 0 {
-				res.Tags = append(res.Tags, "since:nonempty")
+				res.Tags = append(res.Tags, t[0]+":nonempty")
 			}
 			if len(snaps) == count && count > 0 {
-				res.Tags = append(res.Tags, "since:count-hit")
+				res.Tags = append(res.Tags, t[0]+":count-hit")
 			}
 			return got
 		case "lookup":
@@ -259,7 +290,7 @@ func execTopology(st *State, line string) Result {
 		}
 	}
 	res.Out = out
-	res.Nontrivial = t[0] == "since" || t[0] == "lookup" || t[0] == "write"
+	res.Nontrivial = t[0] == "since" || t[0] == "nsince" || t[0] == "tick" || t[0] == "lookup" || t[0] == "write"
 	return res
 }
 
@@ -301,7 +332,7 @@ func genTopology(r *Rand, i int, tier string) []string {
 	}
 	nops := r.Range(3, 45)
 	for j := 0; j < nops; j++ {
-		switch r.Intn(20) {
+		switch r.Intn(23) {
 		case 0, 1, 2, 3, 4, 5, 6, 7:
 			id := fresh()
 			if r.Chance(1, 12) && next > 2 {
@@ -336,6 +367,19 @@ func genTopology(r *Rand, i int, tier string) []string {
 				count = 0
 			}
 			lines = append(lines, fmt.Sprintf("since %d %d", off, count))
+			if r.Chance(1, 2) {
+				lines = append(lines, fmt.Sprintf("nsince %d %d", off, count))
+			}
+		case 20, 21, 22: // node-level listing around the tip: tip-1, tip, tip+1
+			tip := seq
+			if tip < 0 {
+				tip = top
+			}
+			off := tip + r.Range(-1, 1)
+			if off < 0 {
+				off = 0
+			}
+			lines = append(lines, fmt.Sprintf("nsince %d %d", off, Pick(r, []int{0, 1, 2, 10, 500, 501})))
 		case 13, 14, 15:
 			lines = append(lines, fmt.Sprintf("lookup %d", anyID()))
 		case 16:
@@ -380,7 +424,31 @@ func genTopology(r *Rand, i int, tier string) []string {
 	return lines
 }
 
+// genTopoTick: writes, a real statistics tick of the node's TopoStats goroutine, more writes.
+func genTopoTick(r *Rand, i int, tier string) []string {
+	lines := []string{"reset", "raw 0 1", "raw 1 2", "boot"}
+	id := 3
+	for k := r.Range(1, 4); k > 0; k-- {
+		lines = append(lines, fmt.Sprintf("write %d", id))
+		id++
+	}
+	tip := id - 2
+	lines = append(lines, fmt.Sprintf("nsince %d 10", tip), fmt.Sprintf("nsince %d 10", tip+1), "tick")
+	for k := r.Range(1, 3); k > 0; k-- {
+		lines = append(lines, fmt.Sprintf("write %d", id))
+		id++
+	}
+	lines = append(lines, fmt.Sprintf("nsince %d 10", id-2), "nsince 0 500", "since 0 500", fmt.Sprintf("lookup %d", id-1), "last")
+	return lines
+}
+
 func init() {
+	Register(&Subsystem{
+		Name: "topotick",
+		Rule: "one case per run: genesis, node start, TopoWrites, a real 60 s statistics tick of TopoStats, more TopoWrites, node-level and storage listings; non-trivial = write/list/tick results",
+		Gen:  genTopoTick,
+		Exec: execTopology,
+	})
 	Register(&Subsystem{
 		Name: "topology",
 		Rule: "random histories of genesis-style writes, node start/stop/reopen, TopoWrite, listings (offsets around stored orders ±1, counts 0..501/1000), lookups; non-trivial = write/since/lookup results",
@@ -388,6 +456,8 @@ func init() {
 		Exec: execTopology,
 		Corpus: [][]string{
 			{"reset", "boot", "last", "write 1", "since 0 10", "lookup 1"},
+			// node-level listing at tip-1, tip, tip+1 (inclusive cursor), and without a node
+			{"reset", "nsince 0 10", "raw 0 1", "raw 1 2", "boot", "write 3", "nsince 1 10", "nsince 2 10", "nsince 3 10", "nsince 2 0", "nsince 0 501", "lookup 3", "stop", "nsince 2 10"},
 			{"reset", "raw 0 1", "raw 1 2", "boot", "write 3", "write 3", "write 4", "since 2 1", "since 3 5", "lookup 4", "stop", "write 5", "boot", "write 5", "since 0 501", "since 0 500"},
 			{"reset", "raw 0 1", "boot", "raw 1 2", "write 3", "write 4", "reopen", "boot", "write 5", "since 0 10", "lookup 3", "lookup 2"},
 		},
